@@ -129,7 +129,7 @@ def run(tier):
         rep.sample({'text': c['text'], 'options': macrodrv.BASE_OPTS[c['base']] + macrodrv.CASE_OPTS[c['case']],
                     'expansion_at_title': ''.join(map(chr, c['locs'][0]['asm']))})
     rep.rule = ('random term trees (macro nesting <= 4, operands within +-2^20, ** exponents <= 5) preceded by #PUSHS/#DEF/#LET/'
-                '#POKES preambles, rendered in randomly chosen documented concrete syntaxes, planted at 6 places of a skool file, '
+                '#POKES preambles, rendered in randomly chosen documented concrete syntaxes, planted at 7 places of a skool file (incl. a multi-instruction comment and the end comment after it), '
                 'x 9 base/case option sets; each text is expanded by skool2asm.main and skool2html.main; TLC evaluates '
                 'Macro!Expand on the tree and compares; distinct_nontrivial = distinct (set of macros used, base, case)')
     rep.assumptions = [
